@@ -490,10 +490,10 @@ def main(argv=None):
     deadline = time.time() + (a.budget or (60 if quick else 1200))
     with common.Pool() as pool:
         sweep = sweep_cases(a.seed, quick)
-        rand = [gen_case(a.seed * 1_000_000 + i) for i in range(5000 if quick else 400000)]
-        cases = sweep + rand
-        for c in cases[:2] + rand[:1]:
-            c["want_sample"] = True
+        import itertools
+
+        nrand = 5000 if quick else 400000
+        cases = common.with_samples(itertools.chain(sweep, (gen_case(a.seed * 1_000_000 + i) for i in range(nrand))), 2)
         nsweep = len(sweep)
         done = 0
         for case, res in pool.map(run_case, cases, deadline=deadline, chunksize=8):
@@ -501,7 +501,7 @@ def main(argv=None):
             ev.add_run(res)
             for v in res["violations"]:
                 rep.add(case, v)
-        ev.extra["sweep"] = {"step_positions": nsweep, "random_histories_planned": len(rand), "runs_done": done, "complete": done >= nsweep}
+        ev.extra["sweep"] = {"step_positions": nsweep, "random_histories_planned": nrand, "runs_done": done, "complete": done >= nsweep}
         ev.assumptions = [
             "the pool is read white-box from Server.available_data_ports (a PriorityQueue) for the per-event invariant, and behaviourally (n sessions get n distinct ports, the next gets 421) at quiescence",
             "a port is 'bound' from the bind() inside create_server on, as on the real loop; bind attempts in flight are counted so that the invariant is not evaluated in a transient state",
